@@ -39,6 +39,7 @@ class CBInterp:
         self.backward_jumps = 0
         self.gosubs = 0
         self.zero_trip_for = 0
+        self.unwritten_reads = set()
         self.lines = []
         self.index = {}
         for i, (ln, stmts) in enumerate(prog):
@@ -93,6 +94,7 @@ class CBInterp:
     def get_scalar(self, name, kind):
         k = self.key(name, kind)
         if k not in self.vars:
+            self.unwritten_reads.add(k)
             return "" if kind == "s" else Fraction(0)
         return self.vars[k]
 
@@ -130,6 +132,8 @@ class CBInterp:
         for s, b in zip(subs, a["bounds"]):
             if not 0 <= s <= b:
                 raise DomainError("subscript out of range")
+        if subs not in a["data"]:
+            self.unwritten_reads.add((name[:2], kind, subs))
         return a["data"].get(subs, "" if kind == "s" else Fraction(0))
 
     def set_elem(self, name, kind, idx, v, subs=None):
@@ -402,13 +406,18 @@ class CBInterp:
             nxt = (li, oi + 1)
             k = s[0]
             if k == "let":
+                tk = s[1][0]
+                # LET locates its target (evaluating the subscripts) before it evaluates the right-hand side
+                subs = self._subs(s[1][2]) if tk in ("arr", "sarr") else None
                 v = self.eval(s[2])
                 if isinstance(v, bool):
                     v = Fraction(-1 if v else 0)
-                tk = s[1][0]
                 if (tk in ("svar", "sarr")) != isinstance(v, str):
                     raise DomainError("type mismatch")
-                self.assign(s[1], v)
+                if subs is not None:
+                    self.set_elem(s[1][1], "s" if tk == "sarr" else "n", None, v, subs=subs)
+                else:
+                    self.assign(s[1], v)
             elif k == "goto":
                 pc = self._goto(s[1], li)
                 continue
@@ -556,10 +565,15 @@ class CBInterp:
 
     def _print(self, items):
         out = []
+        prev_item = False
         for it in items:
             if it[0] == "s":
                 out.append(("sep", it[1]))
+                prev_item = False
             else:
+                if prev_item:
+                    out.append(("sep", ";"))  # juxtaposed items print like items separated by ';'
+                prev_item = True
                 e = it[1]
                 if e[0] == "fn" and e[1] == "TAB":
                     out.append(("tab", self.num(e[2][0])))
@@ -568,7 +582,7 @@ class CBInterp:
                 if isinstance(v, bool):
                     v = Fraction(-1 if v else 0)
                 if not isinstance(v, str):
-                    self.call("STR$", [v])  # numbers are printed through the formatter
+                    self.call("PRINTNUM", [v])  # numbers are printed through the formatter
                     v = sem.numtok(v)
                 if v != "":
                     out.append(("text", v))
